@@ -86,6 +86,13 @@ def oracle(s, r):
     M = {k: ol.dense(r[k]) for k in ("P", "P0", "Pex", "Pex0", "R", "R0", "Rex", "Rex0", "Jinj", "Ffmg")}
     Nf, Nc = M["P"].shape
     Rmax = g["radii"][-1]
+    for k in M:
+        if k + "_linx" in r:
+            ld = ol.lin_deviation(M[k], r[k + "_linx"], r[k + "_liny"])
+            stats["worst_linearity"] = max(stats.get("worst_linearity", 0.0), ld)
+            if not ld <= ol.LIN_TOL:
+                viols.append(("nonlinear:" + k, "%s applied to generic vectors of size O(1), 1e-20, 1e18 differs from its matrix times the "
+                              "vector by %.3g: the operator is not linear" % (k, ld), {}))
     # adjoint pairs and optimised == reference
     for a, b, key in (("R", "P", "adjoint:standard"), ("Rex", "Pex", "adjoint:extrapolated")):
         u = ulp_close(M[a], M[b].T, ULP)
